@@ -662,7 +662,10 @@ Inductive op :=
 | OExit (i : N)
 | ORecord (i : N) (vals : fields)
 | OEvent (e : event) (p : pspec)
-| OClose (i : N) (busy idle : bytes).        (* the last handle is dropped, nothing else refers to the span: it closes *)
+| OClose (i : N) (busy idle : bytes)         (* the last handle is dropped, nothing else refers to the span: it closes *)
+| ORecordAborted (i : N).                    (* a `record` call that unwinds out of add_fields: a recorded value's Debug / Display
+                                                impl panics, the caller catches it (build with parking_lot: the extensions lock
+                                                does not poison) *)
 
 Fixpoint remove_first (i : N) (l : list N) : list N :=
   match l with
@@ -676,6 +679,13 @@ Fixpoint update_span (i : N) (f : span_st -> span_st) (l : list (N * span_st)) :
   end.
 Definition remove_span (i : N) (l : list (N * span_st)) : list (N * span_st) :=
   filter (fun p => negb (i =? fst p)) l.
+
+(** JsonFields::add_fields builds the merged text in a FRESH String and assigns it to the stored one only after `finish()`
+    succeeded ([fresh], TVGen.Gen_json.gen_add_fields_fresh, read off the source): a call that unwinds while the values are
+    visited leaves the stored fields as they were.  The variant that clears the stored string first and serialises into it
+    loses everything recorded so far. *)
+Definition aborted_effect (fresh : bool) (m : smap) : smap := if fresh then m else [].
+Definition repo_fresh : bool := gen_add_fields_fresh.
 
 (** the state after one operation (the collector's view: Layered calls the registry first, the fmt layer second) *)
 Definition next (c : cfg) (st : state) (x : op) : state :=
@@ -692,6 +702,10 @@ Definition next (c : cfg) (st : state) (x : op) : state :=
          stack := stack st |}
   | OEvent _ _ => st
   | OClose i _ _ => {| spans := remove_span i (spans st); stack := stack st |}
+  | ORecordAborted i =>
+      {| spans := update_span i (fun s => {| sp_meta := sp_meta s; sp_parent := sp_parent s;
+                                             sp_fields := aborted_effect repo_fresh (sp_fields s) |}) (spans st);
+         stack := stack st |}
   end.
 
 (** the lines one operation writes: lifecycle records see the state AFTER the registry's part of new / enter / exit
@@ -703,6 +717,7 @@ Definition emit (c : cfg) (o : opts) (en : env) (st : state) (x : op) : list byt
   | OEnter i => life_lines c o en (next c st x) i (o_enter o) "enter" None
   | OExit i => life_lines c o en (next c st x) i (o_exit o) "exit" None
   | ORecord _ _ => []
+  | ORecordAborted _ => []
   | OEvent e p => [render_line (event_record c o en st e p)]
   | OClose i busy idle => life_lines c o en st i (o_close o) "close" (if has_timer o then Some (busy, idle) else None)
   end.
